@@ -9,6 +9,10 @@ CONSTANTS
   LastItemRunsToEnd = TRUE
   TxSectionEndsAtReceipts = TRUE
   HashIndexExact = TRUE
+  RevertDropsIndexes = TRUE
+  MaxReverts = 0
+  MemoFamilies = {}
+  MemoPurged = TRUE
 INIT MBTInit
 NEXT MBTNext
 CHECK_DEADLOCK FALSE
